@@ -15,7 +15,7 @@ PROPERTY = 'C06'
 
 META = {
     'bounds': {'quick': 'one design: all 4^k fault patterns of up to 5 objective calls (dim<=2, symbolic box); batch of 2 designs with <=3 injected faults',
-               'thorough': 'batch of 2 designs with all patterns (<=6 injected faults), batch of 3 with <=3 faults'},
+               'thorough': 'batch of 2 designs with all patterns (<=6 injected faults), batch of 3 with <=5 faults; one design dim<=3, <=2 constraints'},
     'stubs': ['Problem.evaluate -> uninterpreted function + symbolic fault choice per call',
               'random() (artap.utils) -> fresh real in [0,1)',
               'round(x) -> fresh integer k with |k-x|<=1/2 (superset of round-half-even)'],
@@ -198,6 +198,12 @@ def configs(tier):
                     'engine': {'validate': 60}})
         out.append({'name': 'batch-b3-f3', 'task': 'batch', 'args': {'b': 3, 'max_faults': 3}, 'weight': 30, 'split': 64,
                     'engine': {'validate': 60}})
+        out.append({'name': 'batch-b3-f5', 'task': 'batch', 'args': {'b': 3, 'max_faults': 5}, 'weight': 60, 'split': 96,
+                    'engine': {'validate': 60}})
+        out.append({'name': 'single-dim2-constraints2', 'task': 'single', 'args': {'dim': 2, 'ncon': 2}, 'weight': 30, 'split': 64,
+                    'engine': {'validate': 60}})
+        out.append({'name': 'single-dim3-precision-on-first-parameter-only', 'task': 'single', 'args': {'dim': 3, 'first_precision': 0.5},
+                    'weight': 30, 'split': 64, 'engine': {'validate': 60}})
         out.append({'name': 'single-dim3-symbolic-box', 'task': 'single', 'args': {'dim': 3, 'symbolic_box': True}, 'weight': 30,
                     'split': 64, 'engine': {'validate': 60}})
     return out
